@@ -1,4 +1,319 @@
+/-
+  Lemmas/Closer.lean — helper lemmas for the hystrix closer model (`CM.HCloser`, `CM.clstep`, `CM.clexec`) used by
+  Props/C03.lean: unfolding lemmas, the gate-is-a-TimedCheck refinement, the ShouldClose bookkeeping invariant and
+  the span bound for non-decreasing start readings.
+-/
 import CircuitModel.CloserOps
 import CircuitProofs.Lemmas.TC
 namespace CM
+open CM.SpecC03
+
+/-! ### unfolding `clstep` / `clexec` -/
+
+theorem clstep_allow (c : HCloser) (t : Int) :
+    clstep c (.allow t) = ({ c with tc := (c.tc.check t).1 }, some (c.tc.check t).2) := by
+  cases h : c.tc.check t
+  simp [clstep, h]
+
+@[simp] theorem clexec_nil (c : HCloser) : clexec c [] = c := rfl
+
+theorem clexec_cons (c : HCloser) (op : ClOp) (ops : List ClOp) :
+    clexec c (op :: ops) = clexec (clstep c op).1 ops := by
+  simp [clexec, List.foldl_cons]
+
+theorem clexec_snoc (c : HCloser) (ops : List ClOp) (op : ClOp) :
+    clexec c (ops ++ [op]) = (clstep (clexec c ops) op).1 := by
+  simp [clexec, List.foldl_append]
+
+theorem TC.exec_append (c : TC) (a b : List TCOp) : c.exec (a ++ b) = (c.exec a).exec b := by
+  simp [TC.exec, List.foldl_append]
+
+theorem HCloser.onRun_tc (c : HCloser) (k : Kind) (t d : Int) : (c.onRun k t d).tc = c.tc := by
+  cases k <;> rfl
+
+theorem HCloser.onRun_required (c : HCloser) (k : Kind) (t d : Int) : (c.onRun k t d).required = c.required := by
+  cases k <;> rfl
+
+/-! ### the gate is a TimedCheck -/
+
+theorem clstep_tc (c : HCloser) (op : ClOp) : (clstep c op).1.tc = c.tc.exec (toTC op) := by
+  cases op with
+  | ev k t => exact c.onRun_tc k t 0
+  | opened t => rfl
+  | closed t => rfl
+  | allow t =>
+    rw [clstep_allow]
+    show (c.tc.check t).1 = (c.tc.step (.check t)).1
+    rw [TC.step_check]
+  | shouldClose t => rfl
+  | fire k => rfl
+  | cfg s h r => rfl
+
+theorem clexec_tc (c : HCloser) (ops : List ClOp) : (clexec c ops).tc = c.tc.exec (ops.flatMap toTC) := by
+  induction ops generalizing c with
+  | nil => rfl
+  | cons op ops ih =>
+    rw [clexec_cons, ih, List.flatMap_cons, TC.exec_append, clstep_tc]
+
+/-! ### ShouldClose bookkeeping -/
+
+theorem clstep_succ_required (c : HCloser) (req0 : Int) (h : List ClOp) (op : ClOp)
+    (hs : c.succ = succSince h) (hr : c.required = required req0 h) :
+    (clstep c op).1.succ = succSince (op :: h) ∧ (clstep c op).1.required = required req0 (op :: h) := by
+  cases op with
+  | ev k t =>
+    refine ⟨?_, ?_⟩
+    · cases k <;> simp [clstep, HCloser.onRun, succSince, hs]
+    · rw [show (clstep c (.ev k t)).1 = c.onRun k t 0 from rfl, HCloser.onRun_required]
+      exact hr
+  | opened t => exact ⟨rfl, hr⟩
+  | closed t => exact ⟨rfl, hr⟩
+  | allow t =>
+    rw [clstep_allow]
+    exact ⟨hs, hr⟩
+  | shouldClose t => exact ⟨hs, hr⟩
+  | fire k => exact ⟨hs, hr⟩
+  | cfg s h' r => exact ⟨hs, rfl⟩
+
+theorem clexec_succ_required_gen (req0 : Int) (ops : List ClOp) :
+    ∀ (c : HCloser) (h : List ClOp), c.succ = succSince h → c.required = required req0 h →
+      (clexec c ops).succ = succSince (ops.reverse ++ h) ∧
+      (clexec c ops).required = required req0 (ops.reverse ++ h) := by
+  induction ops with
+  | nil => intro c h hs hr; exact ⟨hs, hr⟩
+  | cons op ops ih =>
+    intro c h hs hr
+    have hstep := clstep_succ_required c req0 h op hs hr
+    rw [clexec_cons, List.reverse_cons, List.append_assoc, List.singleton_append]
+    exact ih _ _ hstep.1 hstep.2
+
+theorem clexec_succ_required (sleep half req : Int) (ops : List ClOp) :
+    (clexec (HCloser.init sleep half req) ops).succ = succSince ops.reverse ∧
+    (clexec (HCloser.init sleep half req) ops).required = required req ops.reverse := by
+  have h := clexec_succ_required_gen req ops (HCloser.init sleep half req) [] rfl rfl
+  simpa using h
+
+/-! ### sorted lists, `sortAsc`, `spanViolated` -/
+
+theorem insertAsc_of_le (x : Int) (l : List Int) (h : ∀ y ∈ l, x ≤ y) : insertAsc x l = x :: l := by
+  cases l with
+  | nil => rfl
+  | cons y ys => simp [insertAsc, h y List.mem_cons_self]
+
+theorem sortAsc_of_pairwise (l : List Int) (h : l.Pairwise (· ≤ ·)) : sortAsc l = l := by
+  induction l with
+  | nil => rfl
+  | cons x xs ih =>
+    rw [List.pairwise_cons] at h
+    simp [sortAsc, ih h.2, insertAsc_of_le x xs h.1]
+
+theorem pairwise_of_nonDecreasing : ∀ (l : List Int), nonDecreasing l = true → l.Pairwise (· ≤ ·)
+  | [], _ => List.Pairwise.nil
+  | [a], _ => by simp
+  | a :: b :: r, h => by
+    simp only [nonDecreasing, Bool.and_eq_true, decide_eq_true_eq] at h
+    have ih := pairwise_of_nonDecreasing (b :: r) h.2
+    refine List.pairwise_cons.mpr ⟨?_, ih⟩
+    rw [List.pairwise_cons] at ih
+    intro y hy
+    rcases List.mem_cons.mp hy with rfl | hy
+    · exact h.1
+    · exact Int.le_trans h.1 (ih.1 y hy)
+
+/-- any element and the one `k` places later are at least `D` apart -/
+def Spaced (D : Int) (k : Nat) (l : List Int) : Prop :=
+  ∀ i a b, l[i]? = some a → l[i + k]? = some b → D ≤ b - a
+
+theorem Spaced.nil (D : Int) (k : Nat) : Spaced D k [] := by
+  intro i a b ha; simp at ha
+
+theorem spanViolated_false_of (D : Int) (k : Nat) (l : List Int) (hs : l.Pairwise (· ≤ ·))
+    (hsp : Spaced D k l) : spanViolated D k l = false := by
+  unfold spanViolated
+  rw [sortAsc_of_pairwise l hs]
+  simp only [List.any_eq_false]
+  intro i _
+  split
+  · next a b ha hb =>
+    have := hsp i a b ha hb
+    simp only [decide_eq_true_eq]; omega
+  · simp
+
+/-- appending an admission `t`: the element `k` places before it lies in `pre` because fewer than `k` admissions
+    (`cur`) happened since the last re-arming -/
+theorem Spaced.snoc {D : Int} {k : Nat} {pre cur : List Int} {t : Int}
+    (h : Spaced D k (pre ++ cur)) (hcur : cur.length < k) (hpre : ∀ a ∈ pre, a ≤ t - D) :
+    Spaced D k (pre ++ cur ++ [t]) := by
+  intro i a b ha hb
+  by_cases hlt : i + k < (pre ++ cur).length
+  · rw [List.getElem?_append_left hlt] at hb
+    rw [List.getElem?_append_left (by omega)] at ha
+    exact h i a b ha hb
+  · have hlen : i + k < (pre ++ cur ++ [t]).length := by
+      apply Classical.byContradiction
+      intro hge
+      rw [List.getElem?_eq_none (by omega)] at hb
+      cases hb
+    simp only [List.length_append, List.length_cons, List.length_nil] at hlt hlen
+    have hik : i + k = (pre ++ cur).length := by simp only [List.length_append]; omega
+    rw [List.getElem?_append_right (by omega), hik] at hb
+    simp at hb
+    subst hb
+    have hi : i < pre.length := by omega
+    rw [List.append_assoc, List.getElem?_append_left hi] at ha
+    have := hpre a (List.mem_of_getElem? ha)
+    omega
+
+/-! ### the span bound for non-decreasing start readings -/
+
+/-- the timestamps of the successful Allow calls, oldest first (Props/C03 `admitted`) -/
+def admittedL (c : HCloser) : List ClOp → List Int
+  | [] => []
+  | op :: ops =>
+    let r := clstep c op
+    match op, r.2 with
+    | .allow t, some true => t :: admittedL r.1 ops
+    | _, _ => admittedL r.1 ops
+
+def allowTimesL : List ClOp → List Int
+  | [] => []
+  | .allow t :: ops => t :: allowTimesL ops
+  | _ :: ops => allowTimesL ops
+
+def staticOpL : ClOp → Bool
+  | .opened _ => false
+  | .closed _ => false
+  | .cfg _ _ _ => false
+  | _ => true
+
+theorem admittedL_allow (c : HCloser) (t : Int) (ops : List ClOp) :
+    admittedL c (.allow t :: ops) =
+      if (c.tc.check t).2 = true then t :: admittedL { c with tc := (c.tc.check t).1 } ops
+      else admittedL { c with tc := (c.tc.check t).1 } ops := by
+  simp only [admittedL, clstep_allow]
+  cases (c.tc.check t).2 <;> simp
+
+theorem maxOne_pos (x : Int) : 0 < maxOne x := by
+  unfold maxOne; split <;> omega
+
+/-- gate state vs. the admissions so far: `pre` = admissions up to and including the last re-arming one,
+    `cur` = admissions since, `L` = the instant before which the gate refuses -/
+structure SpanInv (D : Int) (k : Nat) (c : TC) (pre cur : List Int) (L : Int) : Prop where
+  sleep : c.sleep = D
+  kdef : maxOne c.allow = k
+  next : c.nextOpen = some L
+  cnt : (cur.length : Int) = c.count
+  lt : c.count < max 1 c.allow
+  pre_le : ∀ a ∈ pre, a ≤ L - D
+  spaced : Spaced D k (pre ++ cur)
+
+theorem SpanInv.cur_lt {D : Int} {k : Nat} {c : TC} {pre cur : List Int} {L : Int}
+    (h : SpanInv D k c pre cur L) : cur.length < k := by
+  have h1 := h.kdef
+  have h2 := h.cnt
+  have h3 := h.lt
+  unfold maxOne at h1
+  split at h1 <;> omega
+
+theorem SpanInv.of_eq {D : Int} {k : Nat} {c c' : TC} {pre cur : List Int} {L : Int}
+    (h : SpanInv D k c pre cur L) (h1 : c'.sleep = c.sleep) (h2 : c'.allow = c.allow)
+    (h3 : c'.nextOpen = c.nextOpen) (h4 : c'.count = c.count) : SpanInv D k c' pre cur L :=
+  ⟨h1 ▸ h.sleep, h2 ▸ h.kdef, h3 ▸ h.next, h4 ▸ h.cnt, by rw [h4, h2]; exact h.lt, h.pre_le, h.spaced⟩
+
+theorem span_gen (D : Int) (k : Nat) :
+    ∀ (ops : List ClOp) (c : HCloser) (pre cur : List Int) (L : Int),
+      (∀ op ∈ ops, staticOpL op = true) → SpanInv D k c.tc pre cur L →
+      (pre ++ cur ++ allowTimesL ops).Pairwise (· ≤ ·) →
+      Spaced D k (pre ++ cur ++ admittedL c ops) ∧ (pre ++ cur ++ admittedL c ops).Pairwise (· ≤ ·) := by
+  intro ops
+  induction ops with
+  | nil =>
+    intro c pre cur L _ hinv hpw
+    simp only [admittedL, allowTimesL, List.append_nil] at hpw ⊢
+    exact ⟨hinv.spaced, hpw⟩
+  | cons op ops ih =>
+    intro c pre cur L hst hinv hpw
+    have hst' : ∀ op' ∈ ops, staticOpL op' = true := fun op' h => hst op' (List.mem_cons_of_mem _ h)
+    have hop := hst op List.mem_cons_self
+    cases op with
+    | opened t => simp [staticOpL] at hop
+    | closed t => simp [staticOpL] at hop
+    | cfg s h r => simp [staticOpL] at hop
+    | ev kd t =>
+      have hinv' : SpanInv D k (c.onRun kd t 0).tc pre cur L := by rw [HCloser.onRun_tc]; exact hinv
+      exact ih (c.onRun kd t 0) pre cur L hst' hinv' hpw
+    | shouldClose t => exact ih c pre cur L hst' hinv hpw
+    | fire j =>
+      obtain ⟨f1, f2, _, f4, f5, _⟩ := c.tc.fire_fields j
+      exact ih { c with tc := c.tc.fire j } pre cur L hst' (hinv.of_eq f1 f2 f4 f5) hpw
+    | allow t =>
+      rw [admittedL_allow]
+      have hpw2 : (pre ++ cur ++ t :: allowTimesL ops).Pairwise (· ≤ ·) := hpw
+      by_cases hr : c.tc.fastFail = true ∨ c.tc.nextAfter t = true
+      · rw [TC.check_refused c.tc t hr]
+        simp only [Bool.false_eq_true, if_false]
+        refine ih _ pre cur L hst' hinv ?_
+        exact hpw2.sublist (List.Sublist.append_left (List.sublist_cons_self t _) _)
+      · have hf : c.tc.fastFail = false := by
+          cases hc : c.tc.fastFail <;> simp [hc] at hr ⊢
+        have hn : c.tc.nextAfter t = false := by
+          cases hc : c.tc.nextAfter t <;> simp [hc] at hr ⊢
+        have hLt : L ≤ t := by
+          have := hn
+          simp only [TC.nextAfter, hinv.next, decide_eq_false_iff_not] at this
+          omega
+        have hle : ∀ a ∈ pre ++ cur, a ≤ t := fun a ha =>
+          (List.pairwise_append.mp hpw2).2.2 a ha t List.mem_cons_self
+        have hsp : Spaced D k (pre ++ cur ++ [t]) :=
+          Spaced.snoc hinv.spaced hinv.cur_lt
+            (fun a ha => by have := hinv.pre_le a ha; omega)
+        have hpw3 : (pre ++ cur ++ [t] ++ allowTimesL ops).Pairwise (· ≤ ·) := by
+          simpa [List.append_assoc] using hpw2
+        rw [TC.check_eligible c.tc t hf hn]
+        by_cases hge : c.tc.count + 1 ≥ c.tc.allow
+        · simp only [hge, if_true]
+          have hinv' : SpanInv D k (({ c.tc with count := c.tc.count + 1 } : TC).resetOpen t)
+              (pre ++ cur ++ [t]) [] (t + D) := by
+            refine ⟨hinv.sleep, hinv.kdef, ?_, rfl, ?_, ?_, ?_⟩
+            · show some (t + c.tc.sleep) = some (t + D)
+              rw [hinv.sleep]
+            · show (0 : Int) < max 1 c.tc.allow
+              omega
+            · intro a ha
+              rcases List.mem_append.mp ha with ha | ha
+              · have := hle a ha; omega
+              · have : a = t := by simpa using ha
+                omega
+            · simpa using hsp
+          have := ih { c with tc := ({ c.tc with count := c.tc.count + 1 } : TC).resetOpen t }
+            (pre ++ cur ++ [t]) [] (t + D) hst' hinv' (by simpa using hpw3)
+          simpa [List.append_assoc] using this
+        · simp only [hge, if_false]
+          have hinv' : SpanInv D k ({ c.tc with count := c.tc.count + 1 } : TC) pre (cur ++ [t]) L := by
+            refine ⟨hinv.sleep, hinv.kdef, hinv.next, ?_, ?_, hinv.pre_le, ?_⟩
+            · show ((cur ++ [t]).length : Int) = c.tc.count + 1
+              have := hinv.cnt
+              simp only [List.length_append, List.length_singleton]
+              omega
+            · show c.tc.count + 1 < max 1 c.tc.allow
+              omega
+            · simpa [List.append_assoc] using hsp
+          have := ih { c with tc := ({ c.tc with count := c.tc.count + 1 } : TC) }
+            pre (cur ++ [t]) L hst' hinv' (by simpa [List.append_assoc] using hpw3)
+          simpa [List.append_assoc] using this
+
+/-- the span bound after a transition at `T`, static settings, non-decreasing readings -/
+theorem span_after_transition (c : HCloser) (T : Int) (ops : List ClOp)
+    (hstatic : ∀ op ∈ ops, staticOpL op = true) (hmono : nonDecreasing (allowTimesL ops) = true) :
+    spanViolated c.tc.sleep (maxOne c.tc.allow) (admittedL (c.transition T) ops) = false := by
+  have hinv : SpanInv c.tc.sleep (maxOne c.tc.allow) (c.transition T).tc [] [] (T + c.tc.sleep) := by
+    refine ⟨rfl, rfl, rfl, rfl, ?_, ?_, Spaced.nil _ _⟩
+    · show (0 : Int) < max 1 c.tc.allow
+      omega
+    · intro a ha; simp at ha
+  have h := span_gen c.tc.sleep (maxOne c.tc.allow) ops (c.transition T) [] [] (T + c.tc.sleep) hstatic hinv
+    (by simpa using pairwise_of_nonDecreasing _ hmono)
+  simp only [List.append_nil, List.nil_append] at h
+  exact spanViolated_false_of _ _ _ h.2 h.1
+
 end CM
